@@ -1,4 +1,8 @@
 RULES = [
+    ("C03-F2", "one named value used as the raw write enable of two cells (when=dm twice), or as the data of one cell and "
+               "the enable of another when it is a comparison: the value is retyped in place onto the write-enable "
+               "signal and the other use loses it (cell follows 1 instead of the data / holds a stale value)",
+     lambda c, d: c.get("family") == "two-cells" and c.get("tag") in ("arith-enable-twice", "cmp-data-and-enable")),
     ("C03-F1", "a reader that combines the written value with the cell's own read (Signal o = v - m.read(), v of the "
                "cell's signal type): the data source and the hold gate are both locked to red, the data source joins "
                "the feedback network and the held value grows every tick (the circuit never settles)",
